@@ -124,6 +124,30 @@ GENS["FieldRange"] = {
             "mk = func(base int, next refco.Iter) refco.Iter {", "\treturn refco.New(func(y2 *refco.Y) {", "\t\ty2.Yield(base)", "\t\tx.cur = next", "\t\ty2.Yield(base + 1)", "\t})", "}",
             "x.cur = mk(10, mk(20, nil))", "for it := x.cur; it.MoveNext(); {", "\tv := it.Current()", "\tYIELD(v)", "}", "YIELD(99)", "RETURN"]}
 
+# ---- round 4 of seeded changes ----
+# the init statement of an inner loop that closes the outer loop's body declares a name the outer body already uses:
+# the inner `width` must stay a different variable (closure created before the loop keeps seeing / updating the outer one)
+GENS["HoistCollision"] = ["for round := 1; round <= 3; round++ {", "\twidth := round * 10", "\tprobe := func() int { return width }",
+                          "\tfor i, width := 0, round; i < width; i++ {", "\t\tYIELD(i)", "\t\ttr.U(1, probe())", "\t}", "}", "RETURN"]
+GENS["HoistCollisionWrite"] = ["for round := 1; round <= 2; round++ {", "\twidth := 100", "\tgrow := func() { width += 100 }",
+                               "\tfor i, width := 0, 2; i < width; i++ {", "\t\tgrow()", "\t\tYIELD(i)", "\t}", "\ttr.U(2, width)", "}", "RETURN"]
+# an iterator of iterators: the element type of a generator mentions the iterator type itself
+GENS["IterOfIters"] = {
+    "co": ["span := func(lo, hi int) Iter[int] {", "\tfor i := lo; i < hi; i++ {", "\t\tYield(i)", "\t}", "\treturn nil", "}",
+           "chunks := func() Iter[Iter[int]] {", "\tYield(span(0, 2))", "\tYield(span(10, 12))", "\treturn nil", "}",
+           "for c := range chunks() {", "\tfor v := range c {", "\t\tYIELD(v)", "\t}", "}", "RETURN"],
+    "ref": ["for _, base := range []int{0, 10} {", "\tfor i := base; i < base+2; i++ {", "\t\tYIELD(i)", "\t}", "}", "RETURN"]}
+# a generator literal nested inside an ordinary closure delegates with YieldFrom
+GENS["NestedLitYieldFrom"] = {
+    "co": ["mk := func(tag int) func() Iter[int] {", "\treturn func() Iter[int] {", "\t\tsub := func() Iter[int] {", "\t\t\tYield(tag)", "\t\t\tYield(tag + 1)", "\t\t\treturn nil", "\t\t}",
+           "\t\tYield(-tag)", "\t\tYieldFrom(sub())", "\t\treturn nil", "\t}", "}", "YIELDFROM(mk(10)())", "YIELD(99)", "RETURN"],
+    "ref": ["YIELD(-10)", "YIELD(10)", "YIELD(11)", "YIELD(99)", "RETURN"]}
+# a long history of delegations: many (empty) delegates that finish one after the other
+GENS["ManyDelegates"] = {
+    "co": ["mk := func(n int) Iter[int] {", "\tif n > 0 {", "\t\tYield(n)", "\t}", "\treturn nil", "}",
+           "for i := 0; i < 300000; i++ {", "\tYIELDFROM(mk(0))", "}", "YIELD(7)", "RETURN"],
+    "ref": ["for i := 0; i < 300000; i++ {", "}", "YIELD(7)", "RETURN"]}
+
 # ---- one closure of eta shape per class of callee the optimiser distinguishes (coq/EtaModel.v): name ->
 # (class term of the model, arguments are the parameters in order, literal and callee have identical types, variable, body)
 ETA_CASES = {
